@@ -4,15 +4,16 @@ from common import Failure
 from props._base import *  # noqa
 from refids import random_valid_id
 
-LEAN_MODULES = ['A5.Props.C19']
+LEAN_MODULES = ['A5.Props.C19', 'A5.Props.SrcTie.Hex']
+SRC_TIE = True
 LEVEL = 'proof'
 EXPLANATION = ('Lean theorems for EVERY natural number n: parse(print(n)) = n; the text is non-empty, over 0-9a-f, without prefix/sign/padding ("0" only for n = 0); print is injective; '
                'upper case and leading zeros parse to the same value. hex() and int(.,16) are modelled from CPython\'s grammar (ASCII input) and tied by differential '
-               'correspondence incl. a malformed-string stream.')
+               'correspondence incl. a malformed-string stream. SOURCE-LEVEL TIE: hex.py is translated from the current source each run (A5/Gen/Src.lean) and proved equal to the model for every input (A5/Props/SrcTie/Hex.lean); the theorems are restated about the translated source.')
 RULE = 'ops: all 16-bit lane values (step 17 quick / 1 thorough) with the other lanes 0 / all-ones, single bits and 2^k-1 up to 2^129, valid ids, random 64-bit, negative ints; parse side: fixed edge strings + random well-formed/malformed ASCII strings'
 ASSUMPTIONS = ['hex()/int(s,16) behave as modelled (ASCII strings; non-ASCII digits/whitespace are outside the model)']
 LEVEL_TEXT = 'machine-checked proof (Lean 4 kernel) for every natural number; the two CPython builtins the code consists of are modelled and tied by differential correspondence'
-TECHNIQUE = 'Lean 4 proof (induction on the digit string) + differential correspondence of the builtin models'
+TECHNIQUE = 'Lean 4 proof (induction on the digit string) + differential correspondence of the builtin models + source translated to Lean each run (py2lean) with bridge theorems Src = Model'
 DESIGN_REF = 'DESIGN.md §3 C19'
 
 def gen_ops(tier, rng):
